@@ -4,22 +4,27 @@
 From OIDC Require Import Lib.
 From OIDC Require Export C10_Prog C10_Handlers.
 
-Inductive input := Req (r : router) (f : flow) (p : plan).
+(* warm = the same request was served once, fault-free, by the same provider instance before
+   the run under test (fresh code / tokens prepared again).  The model ignores it: a handler
+   has no state besides the storage, so nothing may make a failed storage call invisible. *)
+Inductive input := Req (r : router) (f : flow) (warm : bool) (p : plan).
 
 Inductive observed :=
 | Obs (hit : bool)               (* the injected failure was reached (refstore.FaultHit) *)
+      (single : bool)            (* exactly one response: one WriteHeader, at most one document in the body *)
       (cls : rclass) (err : string) (creds : list cred)
       (j : list method)          (* the storage journal of the request *)
-| OPanic.
+| OPanic
+| OHang.                         (* the handler did not return within the driver's time-out *)
 
-Definition in_flow (i : input) : flow := match i with Req _ f _ => f end.
-Definition in_plan (i : input) : plan := match i with Req _ _ p => p end.
-Definition in_prog (i : input) : prog := match i with Req r f _ => handler r f end.
+Definition in_flow (i : input) : flow := match i with Req _ f _ _ => f end.
+Definition in_plan (i : input) : plan := match i with Req _ _ _ p => p end.
+Definition in_prog (i : input) : prog := match i with Req r f _ _ => handler r f end.
 
 Definition model (i : input) : observed :=
   let g := in_prog i in let p := in_plan i in
   let a := answer p g in
-  Obs (hit p g) (r_cls a) (r_err a) (r_creds a) (journal p g).
+  Obs (hit p g) true (r_cls a) (r_err a) (r_creds a) (journal p g).
 
 (* ---- the property, from the property text ---- *)
 
@@ -45,8 +50,10 @@ Definition closed_answer (f : flow) (a : resp) : bool :=
 
 Definition spec (i : input) (o : observed) : bool :=
   match o with
-  | OPanic => false
-  | Obs hit cls err creds _ => if hit then closed_answer (in_flow i) (R cls err creds) else true
+  | OPanic | OHang => false
+  | Obs hit single cls err creds _ =>
+      (* "answers that request with an error": one answer, and it is an error without credentials *)
+      if hit then single && closed_answer (in_flow i) (R cls err creds) else true
   end.
 
 (* guards of the theorems: the flow variant is one the fixture can drive; no reached failure
@@ -57,9 +64,10 @@ Definition open_finding (i : input) : bool :=
 
 Definition obs_eqb (a b : observed) : bool :=
   match a, b with
-  | Obs h1 c1 e1 k1 j1, Obs h2 c2 e2 k2 j2 =>
-      Bool.eqb h1 h2 && rclass_beq c1 c2 && String.eqb e1 e2 && list_eqb cred_beq k1 k2 && list_eqb method_beq j1 j2
+  | Obs h1 s1 c1 e1 k1 j1, Obs h2 s2 c2 e2 k2 j2 =>
+      Bool.eqb h1 h2 && Bool.eqb s1 s2 && rclass_beq c1 c2 && String.eqb e1 e2 && list_eqb cred_beq k1 k2 && list_eqb method_beq j1 j2
   | OPanic, OPanic => true
+  | OHang, OHang => true
   | _, _ => false
   end.
 
@@ -72,8 +80,8 @@ Definition path (i : input) (o : observed) : nat :=
   match in_plan i with
   | PNone => 0
   | _ => match o with
-         | Obs _ c _ _ j => cls_index c + 10 * (List.length j - List.length (upto_fault (trace (in_plan i) (in_prog i))))
-         | OPanic => 9
+         | Obs _ _ c _ _ j => cls_index c + 10 * (List.length j - List.length (upto_fault (trace (in_plan i) (in_prog i))))
+         | OPanic | OHang => 9
          end
   end.
 
